@@ -40,6 +40,8 @@ which keeps the meaning exactly:
   * a helper whose returns sit in if / else arms is rewritten so that every return ends its arm, and then read in place;
   * a helper that is a single `return <expression>` called with plain references is written as that expression wherever the call
     stands;
+  * a class-level `NAME = factory(<constants>)` with a new factory of the plain kind (`def inner(self, ...): BODY; return inner`) is read
+    as the method `def NAME(self, ...): BODY` with the constants written in;
   * a function under a new decorator of the plain wrapping kind (same parameters, some statements, `return fn(params)`) is read
     as those statements followed by its own body;
   * a helper call in the middle of an expression or an `if` test that is evaluated first and always (everything before it pure)
@@ -222,6 +224,8 @@ class Simplifier:
         module-level function, operator.X, self.method, a lambda"""
         if _const(e) or isinstance(e, ast.Lambda):
             return True
+        if self.record_fields(e, local) is not None:
+            return True                    # a namedtuple record of such things: immutable, built without effects
         if isinstance(e, ast.Name):
             return self._module_callable(e.id, local)
         if isinstance(e, ast.Attribute) and isinstance(e.value, ast.Name):
@@ -341,6 +345,33 @@ class Simplifier:
         """a reference to a function object (a module-level function, operator.X, a bound method, a lambda): true in a test"""
         return not _const(e) and not isinstance(e, (ast.Tuple, ast.List)) and self.stable_ref(e, local)
 
+    def record_fields(self, e, local):
+        """R(a, b, ...) where R = namedtuple('R', 'f g ...') is bound once at module level and every argument is a constant or a
+        function reference -> {field: argument}"""
+        if not (isinstance(e, ast.Call) and isinstance(e.func, ast.Name) and e.func.id not in local and not e.keywords
+                and not any(isinstance(a, ast.Starred) for a in e.args)):
+            return None
+        d = self.mod.consts.get(e.func.id)
+        if not (isinstance(d, ast.Call) and isinstance(d.func, (ast.Name, ast.Attribute)) and
+                (d.func.id if isinstance(d.func, ast.Name) else d.func.attr) == 'namedtuple' and len(d.args) == 2 and not d.keywords
+                and _const(d.args[0])):
+            return None
+        spec = d.args[1]
+        if _const(spec) and isinstance(spec.value, str):
+            fields = spec.value.replace(',', ' ').split()
+        elif isinstance(spec, (ast.Tuple, ast.List)) and all(_const(x) and isinstance(x.value, str) for x in spec.elts):
+            fields = [x.value for x in spec.elts]
+        else:
+            return None
+        if len(fields) != len(e.args) or e.func.id in self._mutated_names():
+            return None
+        for a in e.args:
+            if not (_const(a) or isinstance(a, ast.Lambda) or (isinstance(a, ast.Name) and self._module_callable(a.id, local)) or
+                    (isinstance(a, ast.Attribute) and isinstance(a.value, ast.Name) and a.value.id == 'operator' and 'operator' not in local
+                     and self._is_stdlib_operator())):
+                return None
+        return dict(zip(fields, e.args))
+
     def _is_stdlib_operator(self):
         s = self.mod.syms.get('operator')
         return s is not None and s.kind == 'ext' and s.target == 'operator'
@@ -408,6 +439,15 @@ class Simplifier:
                 if len(vals) == 1:
                     return vals[0]
                 n.values = vals
+                return n
+
+            def visit_Attribute(self, n):
+                self.generic_visit(n)
+                if isinstance(n.ctx, ast.Load):
+                    rf = me.record_fields(n.value, local)
+                    if rf is not None and n.attr in rf:
+                        me.changed = True
+                        return ast.copy_location(copy.deepcopy(rf[n.attr]), n)        # R(a, b).f is a
                 return n
 
             def visit_Subscript(self, n):
@@ -589,6 +629,13 @@ class Simplifier:
                         and not n.args[1].value.startswith('__'):
                     me.changed = True
                     return ast.copy_location(ast.Attribute(n.args[0], n.args[1].value, ast.Load()), n)
+                if isinstance(fn, ast.IfExp) and me.truthy_ref(fn.body, local) and me.truthy_ref(fn.orelse, local) and \
+                        all(me._pure(a, local) for a in n.args):
+                    # (A if c else B)(args) is A(args) if c else B(args): the arguments are plain references
+                    me.changed = True
+                    new = ast.IfExp(fn.test, ast.Call(fn.body, [copy.deepcopy(a) for a in n.args], []),
+                                    ast.Call(fn.orelse, [copy.deepcopy(a) for a in n.args], []))
+                    return self.visit(ast.fix_missing_locations(ast.copy_location(new, n)))
                 if isinstance(fn, ast.Lambda):
                     a = fn.args
                     if a.vararg or a.kwarg or a.kwonlyargs or a.defaults or len(a.args) + len(a.posonlyargs) != len(n.args):
@@ -1163,6 +1210,20 @@ class Simplifier:
         """`x = <constant or function reference>` : in the statements that follow in the same block, up to the next binding of x, x
         is written as what it is bound to"""
         for i, st in enumerate(stmts):
+            choice = isinstance(st, ast.Assign) and isinstance(st.value, ast.IfExp) and self.truthy_ref(st.value.body, local) and \
+                self.truthy_ref(st.value.orelse, local) and isinstance(st.value.test, ast.Compare) and self._pure(st.value.test.left, local) and \
+                all(_const(c) for c in st.value.test.comparators) and len(st.targets) == 1 and isinstance(st.targets[0], ast.Name) and \
+                i + 1 < len(stmts) and sum(1 for n in ast.walk(self.f) if isinstance(n, ast.Name) and n.id == st.targets[0].id) == 2 and \
+                sum(1 for n in ast.walk(stmts[i + 1]) if isinstance(n, ast.Name) and n.id == st.targets[0].id and isinstance(n.ctx, ast.Load)) == 1 and \
+                not any(isinstance(n, SCOPES + COMPS + (ast.For, ast.While)) for n in ast.walk(stmts[i + 1]))
+            if choice:
+                # f = A if <plain comparison> else B, used once in the next statement: written there (the comparison of a plain
+                # reference with a constant can be made a little later without anything noticing)
+                x = st.targets[0].id
+                stmts[i + 1] = Subst({x: st.value}).visit(stmts[i + 1])
+                del stmts[i]
+                self.changed = True
+                return True
             if isinstance(st, ast.Assign) and len(st.targets) == 1 and isinstance(st.targets[0], ast.Name) and \
                     (self.stable_ref(st.value, local)) and st.targets[0].id not in _params(self.f.args):
                 x = st.targets[0].id
@@ -1678,6 +1739,8 @@ def normalise(p):
     if all(q in vocab for q in p.funcs) and not new_constants():
         return []
     done = []
+    for made in _materialise_factories(p, vocab):
+        done.append(made)
     for qn, f in sorted(p.funcs.items()):
         d = _undecorate(p, f, vocab)
         if d:
@@ -1704,6 +1767,69 @@ def normalise(p):
     if done:
         _drop_unreferenced(p, {h for _q, via in done for h in via}, vocab)
     return done
+
+
+def _materialise_factories(p, vocab):
+    """class body:  NAME = factory(<constants>)   with a new module-level factory of the plain kind
+
+        def factory(k, ...):
+            def inner(self, ...): BODY            (no defaults reading the factory's parameters)
+            inner.__name__ = ... ; inner.__doc__ = ...     (only stores into attributes of inner)
+            return inner
+
+    is read as  def NAME(self, ...): BODY[constants for k, ...]  - a method of the class like any other."""
+    out = []
+    for c in list(p.classes.values()):
+        for i, b in enumerate(list(c.node.body)):
+            if not (isinstance(b, ast.Assign) and len(b.targets) == 1 and isinstance(b.targets[0], ast.Name) and isinstance(b.value, ast.Call)
+                    and isinstance(b.value.func, ast.Name) and not b.value.keywords and all(_const(a) for a in b.value.args)):
+                continue
+            sy = c.mod.syms.get(b.value.func.id)
+            if sy is None or sy.kind != 'func' or sy.target in vocab:
+                continue
+            F = p.funcs.get(sy.target)
+            if F is None or F.mod is not c.mod or F.cls is not None or F.vararg or F.kwarg or len(F.posparams) != len(b.value.args):
+                continue
+            body = _strip_doc(F.node.body)
+            if not body or not isinstance(body[0], ast.FunctionDef) or not isinstance(body[-1], ast.Return) or \
+                    not (isinstance(body[-1].value, ast.Name) and body[-1].value.id == body[0].name):
+                continue
+            inner = body[0]
+            ok = not inner.decorator_list and not inner.args.defaults and not inner.args.kw_defaults
+            for st in body[1:-1]:
+                # only `inner.attr = <expression>` in between
+                if not (isinstance(st, ast.Assign) and len(st.targets) == 1 and isinstance(st.targets[0], ast.Attribute)
+                        and isinstance(st.targets[0].value, ast.Name) and st.targets[0].value.id == inner.name):
+                    ok = False
+            if not ok or (set(stores(inner)) & set(F.posparams)):
+                continue
+            name = b.targets[0].id
+            qn = c.qn + '.' + name
+            if qn in dict.keys(p.funcs) or name in c.methods:
+                continue
+            sub = Subst(dict(zip(F.posparams, b.value.args)))
+            new = ast.FunctionDef(name=name, args=copy.deepcopy(inner.args), body=[sub.visit(copy.deepcopy(x)) for x in inner.body],
+                                  decorator_list=[], returns=None, type_comment=None, type_params=[])
+            ast.copy_location(new, b)
+            ast.fix_missing_locations(new)
+            for n in ast.walk(new):
+                if hasattr(n, 'lineno'):
+                    n.lineno = b.lineno
+                    n.end_lineno = getattr(b, 'end_lineno', b.lineno)
+            # fold what the constants make foldable (getattr(self, 'calc_min') -> self.calc_min)
+            sim = Simplifier(p, c.mod, c, new, qn=qn)
+            sim.stack = {qn}
+            new = sim.run()
+            c.node.body[c.node.body.index(b)] = new
+            fobj = Func(qn, new, c.mod, c, None)
+            fobj.inlined = [F.qn]
+            p.funcs[qn] = fobj
+            c.methods[name] = fobj
+            bm = getattr(p, '_bymeth', None)
+            if bm is not None:
+                bm[name].add(fobj)
+            out.append((qn, [F.qn]))
+    return out
 
 
 def _undecorate(p, f, vocab):
@@ -1743,8 +1869,14 @@ def _undecorate(p, f, vocab):
         return None
     call = gb[-1].value
     names = _params(g.args)
-    if not (isinstance(call.func, ast.Name) and call.func.id == fn and not call.keywords and len(call.args) == len(names)
-            and all(isinstance(a, ast.Name) and a.id == nm for a, nm in zip(call.args, names))):
+    # every parameter handed on once, under its own name: positionally in order, then by keyword name=name
+    npos = len(call.args)
+    if not (isinstance(call.func, ast.Name) and call.func.id == fn and npos <= len(names)
+            and all(isinstance(a, ast.Name) and a.id == nm for a, nm in zip(call.args, names))
+            and sorted(k.arg or '' for k in call.keywords) == sorted(names[npos:])
+            and all(k.arg is not None and isinstance(k.value, ast.Name) and k.value.id == k.arg for k in call.keywords)):
+        return None
+    if g.args.vararg or g.args.kwarg or g.args.kwonlyargs or g.args.posonlyargs:
         return None
     pre = gb[:-1]
     if any(isinstance(n, ast.Name) and n.id == fn for st in pre for n in ast.walk(st)):
